@@ -78,6 +78,11 @@ Call ==
      /\ r.st \in {"ok", "err"}                                  \* a panic is not a step of the specification
      /\ Mode = "C08" => /\ ((r.st = "err") <=> experr)                               \* C08: error exactly when ...
                          /\ (r.st = "err" => r.kind = ExpectedKind(evs))
+                         \* for syntax errors the error carries the reader's error and byte position
+                         /\ ((r.st = "err" /\ r.kind = "QuickXml") =>
+                                (r.position = e.reader_error.position /\ r.debug = e.reader_error.debug))
+     \* C06: a failed extension reports an error rather than a partial result
+     /\ Mode = "C06" => (experr => r.st = "err")
      /\ IF r.st = "err"
         THEN roots' = <<>> /\ cur' = [st |-> "err"]
         ELSE LET top == Elems(DocItems(evs))
